@@ -117,6 +117,73 @@ SNIPPETS = [
     'x = yield_ = [(yield) for _ in ()] if 0 else 0' .replace('[(yield) for _ in ()]', '[]'),
 ]
 
+# "Hard shapes": layouts the seeded-change rounds showed to be blind spots of random generation.  They are NOT part of
+# `programs()` (whose output stream must stay stable for the triaged fixed corpora); packages opt in explicitly by
+# appending `hard_snippets()` AFTER their existing inputs.  Entries that do not parse on this interpreter are dropped.
+HARD_SNIPPETS = [
+    # interleaved starred / keyword arguments, several of each after the last of the other kind, one-line and multi-line
+    'f(a=1, *b, c=2, d=3, e=4)', 'f(x, k=1, *a, j=2, *b, *c, *d)', 'f(k=1, *a, *b, *c, **kw)', 'r = f("é", k="ü", *a, j=2, *b, l=3, m=4)',
+    'f(a, key=1,\n  *b, last=2)', 'f(\n    a=1,\n    *b,\n    c=2,  # é\n    d=3,\n    e=4,\n)',
+    'class C(a, m=1, *b, n=2, o=3, p=4): pass', 'class C(m=1, *a, *b, *c): pass', 'class C(x, key=1,\n  *b, last=2): pass',
+    '@d(a=1, *b, c=2, d=3)\n@e\ndef f(p, /, q=1, *r, s=2, **t): pass',
+    # multi-byte text BEFORE things on the same line
+    'é = "é"; x = f(a, b)  # é', 'ü = "日本"; y = [a, b, (c)]', 'if é: s = "é" ; y = 2', 'x = "é" if é else f(é, "ü", k=1)',
+    'def f(é: "é", è="è", *, ü="ü"): return "é", é', 'class É(Ü, k="é"): "é"; x = 1', 'x = {"é": é, **ü, "k": [é, "é"]}',
+    'lambda é, è="é": (é, "è", è)', 'with open("é") as é, ü("ü") as (a, b): pass', 'f(größe=1, 日本=x, *é)',
+    'match é:\n    case "é" | É(ü, k="é") | {"é": è, **r} | [é, *è]: pass', 'type É[É: "é", *Ü] = dict["é", É]',
+    # trailing semicolons, header-line bodies, elif chains
+    'if x:\n    a = 1 ;\n    s = "é" ;\n    y = 2\n', 'if a: b; c', 'def f(): a; b', 'try: a\nexcept E: b\nelse: c\nfinally: d', 'if a: b\nelif c: d\nelse: e',
+    'for i in j: a; b;\nelse: c', 'while x: a;\n', 'class C: a = 1; b = 2', 'if x: y; \\\n  z', 'with a: b; c',
+    'if a:\n    pass\nelse:  # c1\n    # c2\n    if b:\n        pass\n',
+    # except* spellings, try shapes
+    'try:\n    pass\nexcept *E as e:\n    pass\n', 'try:\n    pass\nexcept  * (A, B) as e:\n    pass\n', 'try:\n    pass\nexcept \\\n  * (A, B) as e:\n    pass\n',
+    'try   :\n    pass\nfinally  :\n    pass\n', 'try:\n    a\nexcept:\n    b\n', 'try:\n    a\nexcept E:\n    b\nelse:\n    c\n',
+    # tight / empty containers and keyword-adjacent forms
+    'x = lambda: 0', 'x = lambda*a: 0', 'x = lambda**k: 0', 'x = lambda *, d: 0', 'f()', 'class C(): pass', 'x = []', 'x = ()', 'x = {}',
+    'x = p if(a)else q', 'x = [(a)for b in(c)if(d)]', 'x = not(a)', 'def f():\n    return(a)', 'x = a if b else-c', 'assert(a), (b)',
+    'del(a), b', 'for(a)in(b): pass', 'print(a)if b else(c)', 'x = (yield)', 'x = [*(a), b]', 'x = {**(a)}', 'x = f(k=(a))',
+    # targets sharing delimiters with the parent
+    'x = f(i for i in a)', 'x = f((i for i in a))', 'x = f((a))', 'class c((a)): pass', 'x = s[a, b]', 'x = s[(a)]', 'x = s[a:b, c]', 'x = s[(a, b)]',
+    'with (a): pass', 'with (a) as b: pass', 'with (a, b): pass', 'with (a as b): pass', 'with (\n    a as b,\n    c,\n): pass', 'from m import (a)', 'from m import (a as b)',
+    'match s:\n    case C((1)): pass', 'match s:\n    case (1) as z: pass', 'match s:\n    case (1) | 2: pass', 'match s:\n    case 1, 2: pass', 'match s:\n    case (1, 2): pass',
+    # undelimited sequences whose end elements carry their own delimiters; parenthesised first element on an earlier line
+    'x = [p], [q]', 'x = (p), (q)', 'x = (p, q), (r, s)', 'for [a], [b] in c: pass', 'x = (\na\n),\\\nb', 'match s:\n    case [p], [q]: pass', 'match s:\n    case (p), *q: pass',
+    'x = (p)(q)', 'x = (p)[q]', 'x = (p) + (q)', 'x = (p) if q else (r)', 'x = (p).q',
+    # multi-line strings / bytes as statements, continuation lines indented less / more than the block
+    'def f():\n    b"""x\n  y\n      z"""\n    return 1\n', 'class C:\n    """doc\nless\n        more"""\n    b"""a\n b"""\n', 'if x:\n    "s" \\\n  "t"\n    y = b"a" \\\nb"b"\n',
+    'def f():\n    x = """a\n  b"""\n    f"""c\n{d}\n e"""\n',
+    # signatures with every marker shape
+    'def f(a, b, /, c, d=1, *, e, f=2, g=3, **k): pass', 'def f(a, *, b=1, c=2, d=3): pass', 'def f(a, /): pass', 'def f(a, /, *, b): pass', 'def f(*a, b=1, c): pass',
+    'def __eq__(self, other, /): pass', 'x = lambda x, /: -x', 'x = lambda item, *, key=order: key(item)', 'def f(a: int = 1, /, *b: c, **d: e) -> f: pass',
+    # comprehensions as iterables of comprehensions, walrus in comprehensions / lambdas
+    'x = [k for k in {key(x): x for x in items}]', 'x = [y for y in [z for z in w] if (t := y)]', 'def f(z): return [(lambda: (y := 1)) for x in z]',
+    'async def f():\n    return [i async for i in a if await b]',
+    # dicts and patterns with ** in the middle positions
+    'x = {a: b, **c}', 'x = {a: b, **c, d: e}', 'x = {**a}', 'match s:\n    case {1: a, **r}: pass',
+    # f-strings
+    'x = f"{a}"', 'x = f"{a!r:>{w}} é {b=}"', 'x = f"{ {1: 2}[1] }"', 'x = f"{a:{b}{c}}"', 'x = f"{\'é\'}" f"{b = }"', 'x = f"""{\n a\n}"""',
+    # comments ending in a backslash, continuation before block colons, blank lines with whitespace, tabs
+    'x = (a  # see C:\\tmp\\\n + b)', 'if a \\\n   :\n    pass', 'x = [\n    a,   \n\n    b,\n]', 'def f():\n\tif x:\n\t\treturn 1\n\treturn 2\n',
+    'import a  \\\n', 'global a, \\\n  b', 'a = b = \\\n  c', 'x = a \\\n  if b \\\n  else c',
+    # decorators / returns / annotations
+    '@(a)\ndef f(): pass', '@a\n\n@b\nclass C: pass', 'def f() -> (a): pass', 'x: (a) = (b)', 'def f(x: "é" = "é") -> "é": pass',
+    # identifiers that CPython normalises (NFKC)
+    'global ℌ', 'def f():\n    ﬁ = 1\n    return fi',
+]
+
+
+def hard_snippets():
+    """the hard shapes that parse on this interpreter"""
+    out = []
+    for s in HARD_SNIPPETS:
+        try:
+            ast.parse(s)
+        except SyntaxError:
+            continue
+        out.append(s)
+    return out
+
+
 NAMES = ['a', 'b', 'c', 'x', 'y', 'foo', 'bar', 'é', 'ñu', 'v1']
 
 
